@@ -716,7 +716,7 @@ fn check_call(case: &Json, stats: &mut Stats) -> Verdict {
     if is_boundary(&args) {
         stats.nontrivial(&format!("{path}{shown}"));
     }
-    let expected = documented(path, &args, None);
+    let expected = run::guarded(|| documented(path, &args, None)).ok().flatten();
     match invoke(f, args) {
         Outcome::Value(v) => {
             if let Some(why) = ty::not_inhabits(&v, &ret, 0) {
@@ -830,7 +830,9 @@ fn check_pure(path: &str, stats: &mut Stats) -> Verdict {
         if is_boundary(&args) {
             stats.nontrivial(&format!("{path}{shown}"));
         }
-        let expected = documented(path, &args, items.as_deref());
+        // (arguments outside the domain of the harness's own model - a declared type that admits more than the
+        // documented one - get no model answer; the call itself is still made and judged)
+        let expected = run::guarded(|| documented(path, &args, items.as_deref())).ok().flatten();
         let mut printed_want: Option<String> = None;
         if let Some(c) = &mut capture {
             let _ = c.take();
